@@ -839,8 +839,10 @@ func (env *cenv) evalCall(t ECall) cval {
 		}
 		r := n.eval(sf.Body)
 		if sf.RType != "" {
-			if RT := env.resolveType(sf.RType); RT != nil && r.k != nil {
-				r = env.convertTo(r, RT)
+			if RT := n.resolveType(sf.RType); RT != nil {
+				if r.k != nil || r.fk != nil || (r.T != nil && isInteger(r.T) && isInteger(RT) && !types.Identical(r.T.Underlying(), RT.Underlying())) {
+					r = env.convertTo(r, RT)
+				}
 			}
 		}
 		return r
